@@ -97,6 +97,7 @@ type vRec struct {
 	Grp   string   `json:"grp"`  // read side only: family and rank of the host group inside its family ("v4#1")
 	Gf    string   `json:"gf"`   // ... the family
 	Gr    int      `json:"gr"`   // ... the rank
+	Gx    bool     `json:"gx"`   // ... a host index of the stream lies outside the group's table
 	Feat  []string `json:"feat"` // written side only: features used for narrow signatures
 	Err   string   `json:"err"`
 }
@@ -214,6 +215,7 @@ func vObserve(st *Stream) (r vRec) {
 			fam = "v6"
 		}
 		r.Grp, r.Gf, r.Gr = fmt.Sprintf("%s#%d", fam, rank), fam, rank
+		r.Gx = int(st.ClientHost) >= hgs[st.HostGroup].hostCount || int(st.ServerHost) >= hgs[st.HostGroup].hostCount
 	}
 	r.Ch = st.ClientHostIP()
 	r.Sh = st.ServerHostIP()
@@ -452,7 +454,9 @@ func (c *vConc) fillers(fam string, at time.Time, version int) []vStreamC {
 		s.Packets = []gopacket.CaptureInfo{ci}
 		s.PacketDirections = []reassembly.TCPFlowDirection{reassembly.TCPDirClientToServer}
 		s.Data = []streams.StreamData{{Bytes: []byte(fmt.Sprintf("f%d.%d", i, version)), PacketIndex: 0}}
-		id := uint64(1_000_000) + off + uint64(i)
+		// distinct ids per file of a stack: fillers of an older file stay visible after a merge, so that every
+		// host of every (remapped) group is read back through some stream
+		id := uint64(1_000_000)*uint64(version) + off + uint64(i)
 		res = append(res, vStreamC{s: s, id: id, filler: true, w: vAbs(s, id)})
 	}
 	return res
